@@ -1167,7 +1167,6 @@ theorem fanPath_depth_le_one (d : Nat) (o : Str) (ho : '/' ∉ o) (h : depthOf (
         simp [e1, e2] at h
         omega
       rw [fanPath_noslash_eq d tl htl h0]
-      simp [fanPath, hne]
 
 /-- the pre-fix writer does what the fixed one does when no entry is deeper than one level -/
 theorem noteTreeUpdateV0_effect {n : Nat} (hn : 1 ≤ n) (t : Tree) (o : Str) (b : Blob)
